@@ -74,6 +74,10 @@ fn exec_m<S: StorageData>(t: &mut TransactionMut<S>, q: &MQ) -> Result<QueryResu
     }
 }
 
+/// probe steps one step may take: far above anything a terminating query on these
+/// small databases needs (capacity 64..128 => a full rehash is a few hundred steps)
+pub const PROBE_BUDGET: u64 = 200_000;
+
 pub const TX_ABORT: &str = "verif: transaction aborted by the closure";
 
 impl<S: StorageData + 'static> DbLike for DbImpl<S> {
@@ -194,11 +198,17 @@ impl Step {
             Step::Tx(_, fail) => (if *fail { "tx_abort" } else { "tx_commit" }).to_string(),
         }
     }
+    /// Runs the step under a hash-probe budget: a query that would loop
+    /// forever in a hashed collection panics with `PROBE_BUDGET_EXHAUSTED`
+    /// instead (deterministic non-termination oracle).
     pub fn run(&self, db: &mut dyn DbLike) -> Result<Vec<QueryResult>, DbError> {
-        match self {
+        agdb::verif::set_probe_budget(PROBE_BUDGET);
+        let r = match self {
             Step::Q(q) => db.m(q).map(|r| vec![r]),
             Step::Tx(qs, fail) => db.tx(qs, *fail),
-        }
+        };
+        agdb::verif::set_probe_budget(u64::MAX);
+        r
     }
 }
 
@@ -487,7 +497,10 @@ impl Dump {
         for e in &els {
             let mut vals: Vec<String> = e.values.iter().map(|(k, v)| format!("{k:?}={v:?}")).collect();
             vals.sort();
-            let _ = write!(s, "[{} {:?}->{:?} {{{}}} kc={} ec={:?}]", e.id, e.from, e.to, vals.join(","), e.key_count, e.edge_count);
+            // for a node from/to are its first outgoing/incoming edge: the order of
+            // edges among a node's connections may legitimately differ (C13)
+            let (from, to) = if e.id < 0 { (e.from, e.to) } else { (0, 0) };
+            let _ = write!(s, "[{} {:?}->{:?} {{{}}} kc={} ec={:?}]", e.id, from, to, vals.join(","), e.key_count, e.edge_count);
         }
         let mut al = self.aliases.clone();
         al.sort();
